@@ -33,7 +33,7 @@ def run(tier, seed, replay=None):
     extra = [x for x in universe.boundary_sources() if not x[0].startswith(repaired)] + \
         universe.name_sources()
     for i, (name, text) in enumerate(extra):
-        for w in (60, 100, 125) if tier == "quick" else (23, 37, 40, 60, 77, 80, 100, 105, 120, 125, 137, 199):
+        for w in (30, 60, 100, 125) if tier == "quick" else (23, 30, 37, 40, 60, 77, 80, 100, 105, 120, 125, 137, 199):
             se = RELEASED[(core.fnv(name.encode()) + w) % 4]
             pts.append((f"{name}@w={w},se={se},v0", name, text, {"max_width": w, "style_edition": se}))
     pts += universe.option_points(tier, seed)
